@@ -52,6 +52,15 @@ def obligations(tier):
         v("lemma_ancestor_is_older", "an ancestor thread's generation is strictly smaller (induction over the parent chain)", "lemma over the thread-tree axiom"),
         dict(engine="verus", unit="reference", function="Reference::deep_clone", name="C13/reference/Reference_deep_clone", source="vm/src/reference.rs::<Reference as Userdata>::deep_clone",
              clause="a reference crossing heaps becomes a reference owned by the RECEIVING thread holding a copy of the content"),
+        # transfer sites: the value stored is the copy deep_clone_value made for the thread that OWNS the channel / cell / lazy value
+        dict(engine="verus", unit="channel", function="send", name="C13/channel/send", source="vm/src/channel.rs::send",
+             clause="transfer site: what is queued is the copy made for the channel's own thread (holdable_by), never the sender's pointer"),
+        dict(engine="verus", unit="reference", function="set", name="C13/reference/set", source="vm/src/reference.rs::set",
+             clause="transfer site: what is stored in the cell is the copy made for the reference's own thread"),
+        dict(engine="verus", unit="reference", function="st::set", name="C13/reference/st_set", source="vm/src/reference.rs::st::set",
+             clause="transfer site (st variant): same"),
+        dict(engine="verus", unit="lazy", function="force::thunk_succeeded", name="C13/lazy/force_thunk_succeeded", source="vm/src/lazy.rs::force (arm: the computation succeeded)",
+             clause="transfer site: the computed value stored in a lazy value is the copy made for the lazy value's own thread, not the forcing thread's pointer"),
         v("lemma_full_clone_copies_everything", "after force_full_clone no value of a real heap is ever shared (over the two contracts)", "lemma"),
     ]
 
